@@ -996,10 +996,43 @@ class Emitter:
                 return '%s:%d' % (f, l)
         return '?'
 
-    def translate(s, fn, loop_contracts=None):
+    def find_loops(s, f):
+        """natural loops of clang -O0 output: a back edge is a `br` carrying !llvm.loop; the loop is the contiguous
+        layout range [header .. latch].  Returns list of (header index, latch index) ordered by header position."""
+        idx = {b.name: i for i, b in enumerate(f.blocks)}
+        loops = []
+        for i, b in enumerate(f.blocks):
+            if not b.ins: continue
+            t = b.ins[-1]
+            if t.op == 'br' and t.loopmd:
+                targets = [t.a[0]] if len(t.a) == 1 else [t.a[1], t.a[2]]
+                hs = [idx[x] for x in targets if idx[x] <= i]
+                if len(hs) != 1: raise Unsupported('loop latch with %d backward targets' % len(hs))
+                loops.append((hs[0], i))
+        loops.sort()
+        for a in range(len(loops)):
+            for b in range(a + 1, len(loops)):
+                (h1, l1), (h2, l2) = loops[a], loops[b]
+                if h2 <= l1 and not (l2 <= l1):
+                    raise Unsupported('loops overlap without nesting')
+                if h1 == h2: raise Unsupported('two latches for one header')
+        return loops
+
+    def translate(s, fn, contract=None):
         """returns (prototype, body text, callee set)"""
         mod = s.mod
         f = mod.funcs[fn]
+        loops = s.find_loops(f) if contract is not None else []
+        lcontracts = (contract or {}).get('loops', {})
+        if contract is not None:
+            for k in lcontracts:
+                if k >= len(loops): raise Unsupported('loop contract for ordinal %d but %s has %d loops' % (k, fn, len(loops)))
+        loop_of_header = {h: (n, l) for n, (h, l) in enumerate(loops) if n in lcontracts}
+        latch_close = {}
+        for n, (h, l) in enumerate(loops):
+            if n in lcontracts: latch_close.setdefault(l, []).append(h)
+        structured_headers = {f.blocks[h].name for h in loop_of_header}
+        block_index = {b.name: i for i, b in enumerate(f.blocks)}
         decls = {}     # c local name -> c type text
         order = []
         code = []
@@ -1049,6 +1082,11 @@ class Emitter:
                     phis.setdefault((lbl, b.name), []).append((d, s.cty(t), val(t, v)))
 
         def jump(frm, to):
+            if to in structured_headers:
+                h = block_index[to]; n, l = loop_of_header[h]
+                if h <= block_index[frm] <= l:
+                    if phis.get((frm, to)): raise Unsupported('phi on a structured back edge')
+                    return 'goto %s__cont;' % lab(to)
             ps = phis.get((frm, to), [])
             out = ''
             if len(ps) == 1:
@@ -1063,7 +1101,17 @@ class Emitter:
         def lab(n): return 'L_' + san(n)
 
         for bi, b in enumerate(f.blocks):
-            code.append('%s: ;' % lab(b.name))
+            if bi in loop_of_header:
+                n, l = loop_of_header[bi]
+                lc = lcontracts[n]
+                code.append('%s: ;' % lab(b.name))
+                code.append('while (1)')
+                if lc.get('assigns') is not None: code.append('  __CPROVER_assigns(%s)' % lc['assigns'])
+                for inv in lc.get('invariant', []): code.append('  __CPROVER_loop_invariant(%s)' % inv)
+                if lc.get('decreases'): code.append('  __CPROVER_decreases(%s)' % lc['decreases'])
+                code.append('{')
+            else:
+                code.append('%s: ;' % lab(b.name))
             for ins in b.ins:
                 op, a, dst = ins.op, ins.a, ins.dst
                 if op == 'phi':
@@ -1118,6 +1166,11 @@ class Emitter:
                             else:
                                 A('!__CPROVER_overflow_%s((%s)%s, (%s)%s)' % (bi_, SXw, X, SXw, Y), 'UB:nsw-' + op, ins.dbg)
                                 code.append('%s = (%s)((%s)%s %s (%s)%s);' % (d, UXw, UXw, X, cop, UXw, Y))
+                        elif op == 'add' and isinstance(y, CInt) and (y.v % (1 << w)) >= (1 << (w - 1)):
+                            # clang writes the unsigned subtraction `x - C` (and `--x`) as `add x, -C`: the source operation wraps iff x < C
+                            C = (1 << w) - (y.v % (1 << w))
+                            AW('(%s)%s >= %dULL' % (UXw, X, C), 'WRAP:unsigned-sub', ins.dbg)
+                            code.append('%s = (%s)((%s)%s %s (%s)%s);' % (d, UXw, UXw, X, cop, UXw, Y))
                         else:
                             if w < 32:
                                 AW('((uint64_t)%s %s (uint64_t)%s) <= %dULL' % (X, cop, Y, (1 << w) - 1), 'WRAP:unsigned-' + op, ins.dbg)
@@ -1199,7 +1252,11 @@ class Emitter:
                     d = decl(dst, t1)
                     X = val(t0, x)
                     if op in ('zext', 'trunc'):
-                        code.append('%s = (%s)%s;' % (d, UX[t1.w], X))
+                        if op == 'trunc' and t1.w == 1:
+                            # LLVM trunc keeps bit 0; a C conversion to _Bool would test != 0
+                            code.append('%s = (_Bool)(%s & 1);' % (d, X))
+                        else:
+                            code.append('%s = (%s)%s;' % (d, UX[t1.w], X))
                     elif op == 'sext':
                         if t0.w == 1:
                             code.append('%s = (%s)(%s ? -1 : 0);' % (d, UX[t1.w], X))
@@ -1345,6 +1402,9 @@ class Emitter:
                         code.append('}')
                 else:
                     raise Unsupported('opcode %s' % op)
+            for h in sorted(latch_close.get(bi, []), reverse=True):
+                code.append('%s__cont: ;' % lab(f.blocks[h].name))
+                code.append('}')
         # prototype
         ps = []
         for (t, nm, at) in f.params:
@@ -1352,7 +1412,12 @@ class Emitter:
         if f.va: raise Unsupported('variadic definition')
         proto = '%s %s(%s)' % (s.cty(f.ret), s.fname(fn), ', '.join(ps) or 'void')
         pnames = {s.lname(nm) for (t, nm, at) in f.params}
-        body = [proto, '{']
+        clauses = []
+        if contract is not None:
+            for r in contract.get('requires', []): clauses.append('__CPROVER_requires(%s)' % r)
+            for e in contract.get('ensures', []): clauses.append('__CPROVER_ensures(%s)' % e)
+            if contract.get('assigns') is not None: clauses.append('__CPROVER_assigns(%s)' % contract['assigns'])
+        body = [proto] + clauses + ['{']
         for cn in order:
             if cn in pnames: continue
             body.append('  %s %s;' % (decls[cn], cn))
@@ -1447,7 +1512,7 @@ def pure_stub(em, fn):
     return proto, '\n'.join(L), set()
 
 
-def emit_closure(mod, roots, srcroot='/repo/', abstract=()):
+def emit_closure(mod, roots, srcroot='/repo/', abstract=(), contracts=None):
     """returns (c_text, info) for the call-graph closure of roots.  Functions whose mangled name matches a
     regex in `abstract` are replaced by the pure-function contract stub."""
     em = Emitter(mod, srcroot=srcroot)
@@ -1462,7 +1527,7 @@ def emit_closure(mod, roots, srcroot='/repo/', abstract=()):
             proto, text, calls = pure_stub(em, n)
             abstracted.append(n)
         else:
-            proto, text, calls = em.translate(n)
+            proto, text, calls = em.translate(n, (contracts or {}).get(n))
         protos.append(proto + ';')
         for c in sorted(calls): visit(c)
         order.append(text)
